@@ -36,21 +36,24 @@ type CtrSpec struct {
 }
 
 type Op struct {
-	N          int      `json:"n"`
-	Kind       string   `json:"kind"` // run-pod create start update stop remove stop-pod remove-pod reconfigure restart sync advance
-	Pod        *PodSpec `json:"pod,omitempty"`
-	Ctr        *CtrSpec `json:"ctr,omitempty"`
-	ID         string   `json:"id,omitempty"`
-	MCPU       int      `json:"mcpu,omitempty"`       // update: new request
-	Mem        int64    `json:"mem,omitempty"`        // update: new memory limit
-	Cfg        *CfgSpec `json:"cfg,omitempty"`        // reconfigure
-	Crash      int      `json:"crash,omitempty"`      // lifecycle request: the plugin process is killed at this fs operation of the request (0 = never), then restarted
-	CrashAfter bool     `json:"crashAfter,omitempty"` // ... right after that fs operation completed instead of right before it
-	Fault      string   `json:"fault,omitempty"`      // nri.drop nri.dup nri.unknown-id stub.update-error ...
-	Secs       int      `json:"secs,omitempty"`       // advance
-	Ev         string   `json:"ev,omitempty"`         // kind "x": the NRI event to deliver out of protocol (C14)
-	Gone       []string `json:"gone,omitempty"`       // restart: containers that disappear while the plugin is down
-	Skip       bool     `json:"skip,omitempty"`       // differential twin: do not deliver this op
+	N          int        `json:"n"`
+	Kind       string     `json:"kind"` // run-pod create start update stop remove stop-pod remove-pod reconfigure restart sync advance
+	Pod        *PodSpec   `json:"pod,omitempty"`
+	Ctr        *CtrSpec   `json:"ctr,omitempty"`
+	ID         string     `json:"id,omitempty"`
+	MCPU       int        `json:"mcpu,omitempty"`       // update: new request
+	Mem        int64      `json:"mem,omitempty"`        // update: new memory limit
+	Cfg        *CfgSpec   `json:"cfg,omitempty"`        // reconfigure
+	Crash      int        `json:"crash,omitempty"`      // lifecycle request: the plugin process is killed at this fs operation of the request (0 = never), then restarted
+	CrashAfter bool       `json:"crashAfter,omitempty"` // ... right after that fs operation completed instead of right before it
+	Fault      string     `json:"fault,omitempty"`      // nri.drop nri.dup nri.unknown-id stub.update-error ...
+	Secs       int        `json:"secs,omitempty"`       // advance
+	Ev         string     `json:"ev,omitempty"`         // kind "x": the NRI event to deliver out of protocol (C14)
+	Gone       []string   `json:"gone,omitempty"`       // restart: containers that disappear while the plugin is down
+	DownStart  []string   `json:"downStart,omitempty"`  // restart: created containers that are started while the plugin is down
+	DownStop   []string   `json:"downStop,omitempty"`   // restart: containers that exit while the plugin is down (still listed, stopped)
+	DownAdd    []*CtrSpec `json:"downAdd,omitempty"`    // restart: containers created while the plugin is down (no plugin adjusted them)
+	Skip       bool       `json:"skip,omitempty"`       // differential twin: do not deliver this op
 
 	identical bool // reconfigure with the configuration already in force (set at execution)
 }
